@@ -511,3 +511,63 @@ def r8_4(ctx):
                 ok, d = Intervals(b).assert_holds(bb)
                 ctx.ob("%s:assert:%s" % (short, b.term(bb)["assert_kind"]), ok, b.where(b.term_loc(bb)), d)
     ctx.ob("reply-path-calls-classified", True, "", "%d call/assert sites outside the tables examined in %s" % (n, [x.split("::")[-1] for x in fns]), nontrivial=False)
+
+
+def r9_7(ctx):
+    """Once a move has been received the wait ends only through the expired edge of
+    out_of_time(start, slice): the reply is neither early nor dependent on the search thread ending."""
+    f = ctx.facts
+    b = f.body(FIND)
+    ctx.note_fn(FIND)
+    ex = Exprs(b)
+    tr = [(bb, t) for bb, t in b.iter_calls() if (callee_of(t) or "").endswith("::try_recv")]
+    if not tr:
+        raise ShapeNotRecognised("no try_recv polling loop in %s" % FIND)
+    loops = b.loops()
+    bb, t = tr[0]
+    inl = [h for h, body_ in loops.items() if bb in body_]
+    if not inl:
+        raise ShapeNotRecognised("try_recv is not inside a loop")
+    h = min(inl, key=lambda hh: len(loops[hh]))
+    loop = loops[h]
+    call = ex.call_expr(t, b.term_loc(bb))
+    best = set()
+    for loc, st in b.iter_stmts():
+        if st["k"] == "assign" and not st["place"]["proj"] and loc[0] in loop:
+            e = ex.rvalue(st["rv"], loc)
+            if e[0] == "agg" and e[2] == "Some" and call in set(subexprs(e)):
+                best.add(st["place"]["local"])
+    # edges that say "the clock has expired"
+    ot_true = set()
+    for s in loop:
+        if b.term(s)["k"] == "switch":
+            d = ex.switch_discr(s)
+            if d[0] == "call" and d[1] == "utils::out_of_time":
+                ot_true.add((s, b.term(s)["otherwise"]))
+    # edges inconsistent with "a move is in hand" (best is Some)
+    refuted = set()
+    for s in loop:
+        if b.term(s)["k"] != "switch":
+            continue
+        d = ex.switch_discr(s)
+        tt = b.term(s)
+        for tg in b.succ.get(s, []):
+            vals = [v for v, x in tt["cases"] if x == tg]
+            is_oth = tt["otherwise"] == tg
+            if d[0] == "call" and d[1].endswith("::is_none") and root_local(d[2][0]) in best:
+                if is_oth and 0 in [v for v, _ in tt["cases"]] and 0 not in vals:
+                    refuted.add((s, tg))       # is_none == true
+            if d[0] == "call" and d[1].endswith("::is_some") and root_local(d[2][0]) in best and vals == [0]:
+                refuted.add((s, tg))
+    exits = {(x, y) for x in loop for y in b.succ.get(x, []) if y not in loop}
+    # from the point where a move has just been stored, can the loop be left without the expiry edge?
+    stores = [loc[0] for loc, st in b.iter_stmts() if st["k"] == "assign" and not st["place"]["proj"] and st["place"]["local"] in best and loc[0] in loop]
+    bad = []
+    for sb in stores:
+        seen = b.reach_from(sb, (), ot_true | refuted)
+        for (x, y) in exits:
+            if x in seen and (x, y) not in ot_true and (x, y) not in refuted:
+                bad.append((x, y))
+    ctx.ob("find_and_play_best_move:wait-ends-on-expiry-only", not bad and bool(stores) and bool(ot_true), b.where(b.term_loc(bad[0][0])) if bad else b.where(b.term_loc(h)),
+           "with a move in hand the polling loop is left only through `out_of_time(start, slice) == true`%s" % (
+               "" if not bad else ": NOT so — it can also be left at %s (e.g. when the search thread ends early), so the reply does not wait for the planned time" % b.where(b.term_loc(bad[0][0]))))
